@@ -32,6 +32,7 @@ type Profile struct {
 	Avoid      map[string]bool
 	SchedKinds []string
 	MaxDevs    int
+	WQueueProb int // percent of "std" queues replaced by a user-supplied acknowledging FIFO adapter (WithQueue)
 	RaceProb   int // percent of programs reshaped into "set-up, barrier, short racers" (0 = default 30, <0 = never)
 }
 
@@ -68,7 +69,7 @@ func weighted(t *rapid.T, label string, w map[string]int, order []string) string
 }
 
 var opOrder = []string{"add", "addall", "addmany", "wait", "result", "close", "status", "drain", "gwait", "gpending", "gconsume", "purge", "qclose", "qpending",
-	"nproc", "npend", "nidle", "nconc", "wstatus", "metrics", "wuf", "release", "sleep", "settle", "snap", "yield"}
+	"nproc", "npend", "nidle", "nconc", "wstatus", "metrics", "wuf", "release", "sleep", "settle", "snap", "yield", "pause", "resume"}
 var ctrlOrder = []string{"pause", "pausewait", "resume", "stop", "waitstop", "restart", "tune", "bind", "cancelctx", "settle", "sleep", "wuf"}
 
 func genSched(t *rapid.T, pf *Profile, thorough bool) Sched {
@@ -132,7 +133,7 @@ func (g *genState) item(q int) Item {
 		it.Prio = pick(t, "prio", pr)
 	}
 	if pct(t, "hasid", 40) {
-		it.ID = pick(t, "id", []string{"a", "b", "job-1", "x y", "é", "A"})
+		it.ID = pick(t, "id", []string{"a", "b", "job-1", "x y", "é", "A", "50%off", "%d%s%v", "q\"uo\\te", "\x01ctl\x7f", "g:pre"})
 	}
 	if pct(t, "gated", g.pf.GatedProb) {
 		it.Gated = true
@@ -165,7 +166,7 @@ func (g *genState) op(kind string) (Op, bool) {
 		}
 		return pick(t, "g", g.groups), true
 	}
-	inMem := func(q int) bool { k := g.cfg.Queues[q]; return k == "std" || k == "prio" }
+	inMem := func(q int) bool { return isMemKind(g.cfg.Queues[q]) }
 	switch kind {
 	case "add":
 		it := g.item(q)
@@ -200,7 +201,7 @@ func (g *genState) op(kind string) (Op, bool) {
 			if inMem(q) {
 				it.ID = "" // explicit batch item IDs are unique; one item in four has none
 				if !pct(t, "noid", 25) {
-					it.ID = "b" + itoa(it.N)
+					it.ID = pick(t, "bidprefix", []string{"b", "b", "b%", "%v-", "b\x02"}) + itoa(it.N)
 				}
 			}
 			if n > 50 {
@@ -267,7 +268,11 @@ func genConfig(t *rapid.T, pf *Profile) Config {
 		qk = pf.QKinds
 	}
 	for i := 0; i < nq; i++ {
-		cfg.Queues = append(cfg.Queues, pick(t, "qkind", qk))
+		k := pick(t, "qkind", qk)
+		if k == "std" && pct(t, "wqueue", pf.WQueueProb) {
+			k = "wstd" // the same FIFO contract, but a user-supplied adapter bound with WithQueue
+		}
+		cfg.Queues = append(cfg.Queues, k)
 	}
 	cfg.Conc = pick(t, "conc", pf.Concs)
 	if len(pf.Expiry) > 0 {
@@ -322,7 +327,7 @@ func genProgram(t *rapid.T, prop string, pf *Profile, thorough bool) *Case {
 				// expand into single adds (adapter queues / bursts without a batch handle)
 				for _, it := range op.Items {
 					it := it
-					if k := c.Cfg.Queues[op.Q]; k == "std" || k == "prio" {
+					if isMemKind(c.Cfg.Queues[op.Q]) {
 						g.jobs = append(g.jobs, it.N)
 						g.mine = append(g.mine, it.N)
 					}
@@ -333,6 +338,18 @@ func genProgram(t *rapid.T, prop string, pf *Profile, thorough bool) *Case {
 			ops = append(ops, op)
 		}
 		c.Clients = append(c.Clients, ops)
+	}
+	// a user-supplied acknowledging adapter may refuse acknowledgements (in-memory jobs are never
+	// acknowledged by the library, so on a correct tree this changes nothing)
+	wq, onlyMem := false, true
+	for _, k := range c.Cfg.Queues {
+		wq = wq || k == "wstd"
+		onlyMem = onlyMem && isMemKind(k)
+	}
+	if wq && onlyMem && len(c.Faults) == 0 && pct(t, "wqackfault", 50) {
+		for i := 0; i < rapid.IntRange(1, 2).Draw(t, "nwqfaults"); i++ {
+			c.Faults = append(c.Faults, Fault{Method: "Acknowledge", K: rapid.IntRange(1, 4).Draw(t, "wqfk")})
+		}
 	}
 	c.Sched = genSched(t, pf, thorough)
 	rp := pf.RaceProb
@@ -382,6 +399,10 @@ func raceify(t *rapid.T, c *Case) {
 		n = append(n, Op{Op: "barrier"})
 		n = append(n, ops[pos:end]...)
 		c.Clients[ci] = n
+	}
+	if rapid.IntRange(0, 4).Draw(t, "sweep1") == 0 {
+		c.Sched = Sched{Strategy: "sweep1"}
+		return
 	}
 	sc := Sched{Strategy: "devu"}
 	for i := 0; i < rapid.IntRange(1, 3).Draw(t, "ndevu"); i++ {
